@@ -17,6 +17,7 @@ import (
 	"strings"
 	"time"
 
+	"github.com/gogo/protobuf/proto"
 	"github.com/pingcap/kvproto/pkg/metapb"
 	pb "github.com/pingcap/kvproto/pkg/replication_modepb"
 	"github.com/pingcap/log"
@@ -236,6 +237,7 @@ type world struct {
 	// the virtual clock (ms): the code reads time.Now(), so before every tick the manager's creation time and the members'
 	// confirmation times are placed (through the hook) as far in the real past as they are in the virtual one; all virtual
 	// distances are multiples of 10 s and no timeout is, so the few microseconds of real time in between never decide
+	downs    int // alternates the two ways a store can be down
 	vnow     int64
 	vinit    int64 // virtual creation time of the current manager
 	vmembers map[uint64]int64
@@ -304,10 +306,21 @@ func (w *world) setStore(s store, label string) {
 		return
 	}
 	if s.Down {
-		w.tc.SetStoreDown(s.ID)
+		if s.ID%2 == 1 {
+			w.neverHeartbeated(s.ID)
+		} else {
+			w.tc.SetStoreDown(s.ID)
+		}
 	} else {
 		w.tc.SetStoreUp(s.ID)
 	}
+}
+
+func (w *world) neverHeartbeated(id uint64) {
+	st := w.tc.GetStore(id)
+	m := proto.Clone(st.GetMeta()).(*metapb.Store)
+	m.LastHeartbeat = 0
+	w.tc.PutStore(core.NewStoreInfo(m))
 }
 
 func newWorld(b boot) *world {
@@ -440,7 +453,14 @@ func (w *world) exec(o op, label *string) string {
 		}
 	case "store":
 		if o.Down {
-			w.tc.SetStoreDown(o.StID)
+			w.downs++
+			if w.downs%2 == 0 {
+				// the other way a store is "down": a replacement that registered and has never sent a heartbeat (LastHeartbeat 0:
+				// down since 1970 for checkStoreStatus)
+				w.neverHeartbeated(o.StID)
+			} else {
+				w.tc.SetStoreDown(o.StID)
+			}
 		} else {
 			w.tc.SetStoreUp(o.StID)
 		}
